@@ -287,7 +287,7 @@ def run(ctx):
         "evaluations": len(cases),
         "client_parses": len(queries),
         "distinct_nontrivial": len(nontrivial),
-        "rule": "non-trivial = distinct (framing, close, version, Connection, HEAD, body, number of fields) of responses the client parsed from the real wire; the decision table method{GET,HEAD} x version{1.0,1.1,2.0} x Connection{absent,close,keep-alive,Keep-Alive,CLOSE,upgrade} x status{200,204,304,100} x Content-Length{absent,exact,larger,smaller,zero} x 15 iterable/write shapes is enumerated completely",
+        "rule": "non-trivial = distinct (framing, close, version, Connection, HEAD, body, number of fields) of responses the client parsed from the real wire; the decision table method{GET,HEAD} x version{1.0,1.1,2.0} x Connection{absent,close,keep-alive,Keep-Alive,CLOSE,upgrade} x status{200,204,304,100} x Content-Length{absent,exact,larger,smaller,zero} x 18 iterable/write shapes (incl. write(b"") and write() before a seekable / non-seekable file wrapper) is enumerated completely",
         "samples": samples,
         "framing_distribution": dist,
         "outside_quantifier": outside,
